@@ -13,7 +13,7 @@ ALLOC_BASE = 1_000_000
 
 
 class Path:
-    __slots__ = ("env", "pc", "facts", "heap", "ghost", "notes", "alloc", "sets", "dicts", "tainted", "trace")
+    __slots__ = ("env", "pc", "facts", "heap", "ghost", "notes", "alloc", "sets", "dicts", "tainted", "trace", "fresh")
 
     def __init__(self):
         self.env = {}
@@ -27,6 +27,7 @@ class Path:
         self.dicts = {}     # concrete did -> (has Array, get Array, keys Seq)
         self.tainted = set()
         self.trace = []     # branch decisions, for witnesses
+        self.fresh = {}     # (field, concrete oid) -> V term: fields of objects allocated on this path
 
     def fork(self):
         p = Path()
@@ -41,6 +42,7 @@ class Path:
         p.dicts = dict(self.dicts)
         p.tainted = set(self.tainted)
         p.trace = list(self.trace)
+        p.fresh = dict(self.fresh)
         return p
 
     def hyps(self):
@@ -78,6 +80,8 @@ class Obligation:
     model: object = None
     model_text: str = ""
     expect_sat: bool = False  # cover obligations: hyps must be satisfiable
+    props: list = None        # properties this obligation carries (None = those of the contract)
+    known: list = field(default_factory=list)
 
 
 class Outcome:
